@@ -47,6 +47,11 @@ func c05Operands() []operand {
 	ops = append(ops, operand{"true", "bool", lit(ast.True()), "true", true})
 	ops = append(ops, operand{"false", "bool", lit(ast.False()), "false", true})
 	ops = append(ops, operand{"null", "null", lit(ast.Null()), "null", true})
+	// nulls of another provenance: what reading a place that does not exist yields
+	ops = append(ops, operand{"null(a[5])", "null", lit(ast.Idx(ast.Arr(ast.Num("1"), ast.Num("2")), ast.Num("5"))), "", true})
+	ops = append(ops, operand{"null(o.zz)", "null", lit(ast.Mem(ast.Paren(ast.Obj(ast.KV("a", ast.Num("1")))), "zz")), "", true})
+	ops = append(ops, operand{"null(o[3])", "null", lit(ast.Idx(ast.Paren(ast.Obj(ast.KV("a", ast.Num("1")))), ast.Num("3"))), "", true})
+	ops = append(ops, operand{"null(n.k)", "null", lit(ast.Mem(ast.Num("7"), "k")), "", true})
 	ops = append(ops, operand{"unset", "unset", lit(ast.Id("u")), "", false})
 	ops = append(ops, operand{"[]", "arr", lit(ast.Arr()), "[]", true})
 	ops = append(ops, operand{"[1]", "arr", lit(ast.Arr(ast.Num("1"))), "[1]", true})
